@@ -78,9 +78,18 @@ def confirm(ctx, binp, ev, bad, reason, env=None, tag=""):
         vlib.write_ndjson(dd + "/in.ndjson", [dict(op=e["op"], **{"in": e["in"]}) for e in tev])
         vlib.run_driver(ctx, binp, "replay", dd + "/o.ndjson", infile=dd + "/in.ndjson", extra_env=env)
         again = vlib.read_ndjson(dd + "/o.ndjson")
+        conc = (".par", ".first")          # outcomes of concurrent phases depend on the schedule: up to three re-executions
+        for extra in range(2):
+            if not any(b["op"].endswith(conc) and not again[b["i"] - 1]["out"].get("panic") for b in bad if b["t"] == tr):
+                break
+            vlib.run_driver(ctx, binp, "replay", dd + "/o%d.ndjson" % extra, infile=dd + "/in.ndjson", extra_env=env)
+            more = vlib.read_ndjson(dd + "/o%d.ndjson" % extra)
+            for b in [x for x in bad if x["t"] == tr and x["op"].endswith(conc)]:
+                if more[b["i"] - 1]["out"].get("panic"):
+                    again[b["i"] - 1] = more[b["i"] - 1]
         for b in [x for x in bad if x["t"] == tr]:
             a = again[b["i"] - 1]
-            if a["out"] == b["out"] or (b["op"].endswith(".par") and a["out"].get("panic")):
+            if a["out"] == b["out"] or (b["op"].endswith(conc) and a["out"].get("panic")):
                 slim = dict(op=b["op"], t=b["t"], i=b["i"], **{"in": b["in"]})
                 slim["out"] = {k: v for k, v in b["out"].items() if k not in ("fp", "audit")}
                 slim["history"] = [dict(op=e["op"], **{"in": e["in"]}) for e in tev[:b["i"]]]
